@@ -17,6 +17,8 @@ import pexpect.popen_spawn as PO
 import pexpect.socket_pexpect as SK
 import ptyprocess.ptyprocess as PP
 
+PP._make_eof_intr()      # normally done by PtyProcess.__init__ (instances are built without forking here)
+
 ENCODES = ['pexpect.pty_spawn.spawn.send', 'pexpect.pty_spawn.spawn.sendline', 'pexpect.pty_spawn.spawn.write',
            'pexpect.pty_spawn.spawn.writelines', 'pexpect.pty_spawn.spawn.sendcontrol', 'pexpect.pty_spawn.spawn.sendeof',
            'pexpect.pty_spawn.spawn.sendintr', 'pexpect.fdpexpect.fdspawn.send', 'pexpect.fdpexpect.fdspawn.sendline',
